@@ -96,3 +96,17 @@ pub open spec fn rglue_post(s0: Scope, s1: Scope) -> bool {
         },
     }
 }
+
+/// where the reader stands after consuming the presence bits [start, end) of a bitmap and skipping one open type
+/// (general length in octets, clamped to the visible end) for each bit that is set; None = the input is rejected
+pub open spec fn dec_skip(bytes: Seq<u8>, start: int, end: int, pos: int, limit: int) -> Option<int>
+    decreases end - start
+{
+    if start >= end { Some(pos) }
+    else if start >= limit { None }
+    else if !bit_at(bytes, start) { dec_skip(bytes, start + 1, end, pos, limit) }
+    else { match dec_len_general(bytes, pos, limit) {
+        None => None,
+        Some((n, p1)) => dec_skip(bytes, start + 1, end, if p1 + 8 * n < limit { p1 + 8 * n } else { limit }, limit),
+    } }
+}
